@@ -535,7 +535,81 @@ def mon_malformed(ops, lines):
     return None
 
 
+def mon_count_hang(ops, lines):
+    """C17 / C15: a blocking Pull issued while the subscription has messages waiting is answered at once, whatever
+    its max_messages - never left spinning or parked."""
+    backlog = {}
+    started = {}
+    for i, (o, r) in enumerate(zip(ops, lines)):
+        ot, rt = o.split(" "), r.split(" ")
+        if r.startswith("!"):
+            return "C17-noanswer: op %d (%s) got %s" % (i, ot[0], r[:60])
+        if ot[0] == "STATS" and rt[1:2] == ["0"]:
+            backlog[ot[1]] = int(rt[3])
+        elif ot[0] == "BG" and ot[2:3] == ["PULL"] and ot[5:6] == ["0"]:
+            started[ot[1]] = (ot[3], backlog.get(ot[3], 0), ot[4], i)
+        elif ot[0] == "JOIN" and ot[1] in started:
+            sub, b, n, at = started[ot[1]]
+            if rt[2:] == ["-"] and b > 0:
+                return ("C17-hang: the blocking Pull with max_messages %s started at op %d on %r, which had %d message(s) "
+                        "waiting, has no answer at op %d" % (n, at, unhx(sub), b, i))
+            if rt[2:] != ["-"]:
+                started.pop(ot[1])
+    return None
+
+
+def token_decodable(tokhex):
+    """Is this page token one the property calls decodable: standard base64, canonical padding, exactly 8 bytes."""
+    import base64, binascii as _ba
+    try:
+        t = unhx(tokhex).decode("ascii")
+        raw = base64.b64decode(t, validate=True)
+    except Exception:
+        return False
+    return len(raw) == 8 and base64.b64encode(raw).decode() == t
+
+
+def mon_paging_pure(ops, results):
+    """C13 on parse_paging itself: a negative page size or an undecodable token is rejected, everything else is not.
+    -> None or (index, explanation)"""
+    for i, (o, r) in enumerate(zip(ops, results)):
+        ot = o.split(" ")
+        if ot[0] != "PG":
+            continue
+        size, tok = int(ot[1]), ot[2]
+        bad = size < 0 or not (tok == "-" or token_decodable(tok))
+        if bad and not r.startswith("PG 3"):
+            return i, ("C13-accepted: parse_paging(size %d, token %r) was accepted (%s); a negative size or an undecodable "
+                       "token must be rejected" % (size, unhx(tok), r))
+        if not bad and r.startswith("PG 3"):
+            return i, "C13-rejected: parse_paging(size %d, token %r) was rejected" % (size, unhx(tok))
+    return None
+
+
+def mon_list_args(ops, lines):
+    """C13: a List call with a negative page size or an undecodable token answers INVALID_ARGUMENT."""
+    for i, (o, r) in enumerate(zip(ops, lines)):
+        ot, rt = o.split(" "), r.split(" ")
+        if ot[0] in ("LT", "LS", "LTS") and len(ot) >= 4 and len(rt) > 1:
+            try:
+                size = int(ot[2])
+            except ValueError:
+                continue
+            bad_tok = not (ot[3] == "-" or token_decodable(ot[3]))
+            if (size < 0 or bad_tok) and rt[1] in ("0", "5"):
+                return ("C13-bad-argument-accepted: %s with page size %d and token %r answered status %s at op %d; a negative "
+                        "size or an undecodable token is rejected with INVALID_ARGUMENT" % (ot[0], size, unhx(ot[3]), rt[1], i))
+    return None
+
+
 def mon_walk(ops, lines):
+    w = mon_list_args(ops, lines)
+    if w:
+        return w
+    return _mon_walk(ops, lines)
+
+
+def _mon_walk(ops, lines):
     """C13: a walk (consecutive list ops of one kind/argument/size starting with an empty token and following the
     returned tokens) never exceeds the page size and never repeats an element."""
     i = 0
@@ -741,6 +815,25 @@ def mon_abandon(ops, lines):
             if hit:
                 return ("C11-deleted-but-listed: %r was deleted by a completed DeleteSubscription and is still listed at "
                         "op %d (%s)" % (unhx(sorted(hit)[0]), i, ot[0]))
+    # a push subscription that exists is registered for push, and nothing else is (C16: no half-created resource)
+    exists = {}
+    for i in range(x + 1, len(ops)):
+        ot, rt = ops[i].split(" "), lines[i].split(" ")
+        if ot[0] == "GS" and len(rt) > 1:
+            exists[ot[1]] = rt[5] if rt[1] == "0" and len(rt) > 5 else None
+        elif ot[0] == "REG" and rt[0] == "REG":
+            n = int(rt[1])
+            reg = {rt[2 + 2 * j]: rt[3 + 2 * j] for j in range(n)}
+            for sub, ep in exists.items():
+                if ep not in (None, "~") and sub not in reg:
+                    return ("C16-half-created-push: %r exists as a push subscription (endpoint %r) but is not in the push "
+                            "registry: nothing will ever be pushed to it" % (unhx(sub), unhx(ep)))
+                if ep is None and sub in reg:
+                    return ("C16-half-created-push: %r does not exist but is registered for push to %r"
+                            % (unhx(sub), unhx(reg[sub])))
+            break
+        elif ot[0] in ("PUB", "CT", "CS", "DS", "DT", "ADV"):
+            break
     found = {}
     for i in range(x + 1, len(ops)):
         ot, rt = ops[i].split(" "), lines[i].split(" ")
@@ -1132,6 +1225,14 @@ def mon_namespace(ops, lines):
                             % (unhx(ot[1]), i, unhx(rt[3]), unhx(want)))
             if k == "DS" and code == "0":
                 del subs[ot[1]]
+        elif k in ("ACK", "MOD") and code in ("0", "5"):
+            # a data-plane call on a name: OK exactly when the name exists (whatever its id list says, an empty one included)
+            present = ot[1] in subs
+            if code == "0" and not present:
+                return ("C10-absent-ok: %s on %r answered OK at op %d although no such subscription exists (deleted or "
+                        "never created)" % ("Acknowledge" if k == "ACK" else "ModifyAckDeadline", unhx(ot[1]), i))
+            if code == "5" and present:
+                return "C10-present-notfound: %s of the live subscription %r answered NOT_FOUND at op %d" % (k, unhx(ot[1]), i)
         elif k == "LT" and code == "0" and ot[3] == "-" and rt[-1] == "-":
             got = rt[3:3 + int(rt[2])]
             pm = re.match(rb"^projects/([^/]*)$", unhx(ot[1]))
@@ -1228,6 +1329,12 @@ def mon_create_delete_race(ops, lines):
             last_pub = None
         if ot[0] == "JOIN" and rt[2:] == ["-"]:
             return "C07-pending: call %s has no answer although the server is idle" % ot[1]
+        if ot[0] == "XD2":
+            if rt[1:] and "second=ok" in rt and rt[-1] == "present":
+                return ("C11-delete-returned-early: a second DeleteSubscription(%r) answered OK while the first one was "
+                        "still waiting for the topic, and the subscription was still in the manager at that moment "
+                        "(op %d: %s)" % (unhx(ot[4]), i, " ".join(rt[1:])))
+            continue
         if ot[0] == "GS":
             exists[ot[1]] = rt[1:2] == ["0"]
         if ot[0] == "LTS" and rt[1:2] == ["0"]:
